@@ -38,8 +38,8 @@ def tkey(t):
 
 class C07(InterpProp):
     id = 'C07'
-    quick_cases = 120
-    thorough_cases = 2500
+    quick_cases = 250
+    thorough_cases = 8000
     n_ops = 30
     with_contracts = 0.3
     rule = ('for each random well-formed chart a twin with sibling-state and transition declaration order shuffled at '
